@@ -91,11 +91,13 @@ func (p *protocolInitializerV3) serverInit() error {
 		return errors.New("protocolInitializerV3 exchangeVersion failed, reason:" + err.Error())
 	}
 
+	vpo(vpHandshake, p.session, 20)
 	//2.recv and mapping share memory
 	h, err := blockReadEventHeader(p.session.connFd)
 	if err != nil {
 		return errors.New("protocolInitializerV3 blockReadEventHeader failed,reason:" + err.Error())
 	}
+	vpo(vpHandshake, p.session, 21)
 	switch h.MsgType() {
 	case typeShareMemoryByFilePath:
 		err = handleShareMemoryByFilePath(p.session, h)
@@ -110,6 +112,7 @@ func (p *protocolInitializerV3) serverInit() error {
 		return err
 	}
 
+	vpo(vpHandshake, p.session, 22)
 	//3.ack share memory
 	respHeader := header(make([]byte, headerSize))
 	respHeader.encode(headerSize, p.session.communicationVersion, typeAckShareMemory)
@@ -132,7 +135,9 @@ func (p *protocolInitializerV3) clientInit() error {
 	if err != nil {
 		return err
 	}
+	vpo(vpHandshake, p.session, 23)
 	_, err = waitEventHeader(p.session.connFd, typeAckShareMemory)
+	vpo(vpHandshake, p.session, 24)
 
 	return err
 }
